@@ -4,6 +4,10 @@ from ast import *
 
 from oneliner.config import Configs
 
+# The reserved name of a protected builtin, see `protect_builtins`
+# (defined here instead of reserved_identifiers to avoid the circular import)
+OL_BUILTIN = "__ol_builtin_{}"
+
 
 _used_ids: set[str] = set()
 
@@ -178,6 +182,60 @@ def validate(root: Module) -> None:
                 stack.append((sub_node, in_loop, in_func))
 
 
+def builtin(name: str) -> Name:
+    """
+    Get a reference to a builtin, which is used by the converted code.
+    The reference is marked, see `protect_builtins`
+    """
+    node = Name(id=name, ctx=Load())
+    node.ol_builtin = True  # type: ignore
+    return node
+
+
+def protect_builtins(user_root: Module, converted: list[expr]) -> None:
+    """
+    If the user's script binds a name of a builtin which is used by the converted code
+    (e.g. `type = 1`), the builtin is saved to a reserved name
+    at the beginning of the converted script,
+    the references (created by `builtin`) are renamed to the reserved name
+    """
+    bound_names: set[str] = set()
+    for node in walk(user_root):
+        if isinstance(node, Name) and not isinstance(node.ctx, Load):
+            bound_names.add(node.id)
+        elif isinstance(node, arg):
+            bound_names.add(node.arg)
+        elif isinstance(node, (FunctionDef, ClassDef)):
+            bound_names.add(node.name)
+        elif isinstance(node, alias):
+            bound_names.add((node.asname or node.name).split(".")[0])
+        elif isinstance(node, (Global, Nonlocal)):
+            bound_names.update(node.names)
+
+    protected: dict[str, str] = {}
+    stack: list[AST] = list(converted)
+    while stack:
+        node = stack.pop()
+        if getattr(node, "ol_builtin", False):
+            assert isinstance(node, Name)
+            if node.id in bound_names:
+                protected[node.id] = OL_BUILTIN.format(node.id)
+            if node.id in protected:
+                node.id = protected[node.id]
+                node.ol_builtin = False  # type: ignore
+            continue
+        stack.extend(iter_child_nodes(node))
+
+    for name in sorted(protected, reverse=True):
+        converted.insert(
+            0,
+            NamedExpr(
+                target=Name(id=protected[name], ctx=Store()),
+                value=Name(id=name, ctx=Load()),
+            ),
+        )
+
+
 def convert_slice(_slice: Slice) -> Call:
     """
     Convert slice expt to a call of slice function
@@ -185,7 +243,7 @@ def convert_slice(_slice: Slice) -> Call:
     """
     _slice_value = lambda v: Constant(None) if v is None else v
     return Call(
-        func=Name(id="slice", ctx=Load()),
+        func=builtin("slice"),
         args=[
             _slice_value(_slice.lower),
             _slice_value(_slice.upper),
